@@ -24,6 +24,7 @@ RULE = ("histories: an initial generated ACL (<= 8 lines, plain addresses and gr
         "(by meaning) / remarks / numbers / header, data() rebuilds the same text, attached group members equal "
         "the model's. Non-trivial: >= 3 applied operations of >= 2 kinds incl. a structure-changing one; "
         "distinct by canonical history")
+RULE += ". Directed classes added after the seeded-change rounds: operations twin / sort_twice / append_remove / fill_in_place; ACLs of 2-3 independent cover pairs in six interleavings with early shadow removal; platform aliases, versions, 17-bit wildcards under a raised limit"
 ASSUMPTIONS = ["model = documentation of each operation (DESIGN.md 3, C17); conversion keeps meaning and splits "
                "multi-port eq on NX-OS; delete_shadow drops every ACE with an earlier same-action ACE that covers it "
                "(exact inclusion for plain addresses, member-wise prefix inclusion for group addresses)",
